@@ -27,6 +27,20 @@ def small_loop(rng):
            [(0, 1, 0, None), (0, 1, 2, leaf(h)), (1, 1, 4, None), (0, 1, 2, leaf(h))]
 
 
+def mutual_jump(rng):
+    """a cycle in which every command leaves by a label jump and none ever falls through (2 or 3 commands that
+    register their own label first and, re-entered with a larger value, jump to the next one's): only the jump
+    budget ends it (seeded change C10-budget-checked-on-fall-through-only)"""
+    k = rng.choice([2, 2, 3])
+    hs = rng.sample(range(2, 13), k)
+    kind = rng.choice([5, 5, 1])
+    p = [(0, 1, 1, None)] if kind == 5 else [(0, 1, 1, None), (0, 1, 1, None)]
+    for i in range(k):
+        p.append((kind, 1, 3, (0, leaf(hs[i]), leaf(hs[(i + 1) % k]))))
+    p.append((0, 1, 3, leaf(hs[0])))
+    return p + idiom_print(rng)
+
+
 def run_shard(args):
     cases, timeout = args
     with tempfile.NamedTemporaryFile("w", suffix=".cases", delete=False, dir=BUILD) as f:
@@ -50,7 +64,8 @@ def main(tier, seed):
         progs = []
         for k in range(n):
             r = rng.random()
-            if r < 0.35: p = io_first(rng)
+            if r < 0.06: p = mutual_jump(rng)
+            elif r < 0.35: p = io_first(rng)
             elif r < 0.5: p = small_loop(rng) + idiom_print(rng)
             elif r < 0.6: p = idiom_loop(rng, rng.choice([99, 100, 101, 150])) + idiom_read(rng)
             else: p = rand_prog(rng)
